@@ -44,6 +44,17 @@ def check(src, rep):
     for n in (x for f_ in CM.methods.values() for x in ast.walk(f_.node)):
         if isinstance(n, ast.Assign) and isinstance(n.value, ast.Await) and "factory" in ast.unparse(n.value) and isinstance(n.targets[0], ast.Attribute):
             conn = n.targets[0].attr
+    if conn is None:
+        # the awaited connection may pass through locals before it is stored: the field written with a value that comes from the awaited factory call (E-PATH)
+        def _from_factory(sv):
+            return isinstance(sv, tuple) and ((sv[:1] == ("await",) and "factory" in str(sv[1])) or any(_from_factory(x) for x in sv if isinstance(x, tuple)))
+        try:
+            for p_ in Engine(M, inline_async=True).run(tc):
+                for e_ in p_.effects:
+                    if e_[0] == "write" and e_[1] == SELF and _from_factory(e_[3]):
+                        conn = e_[2]
+        except Exception:  # noqa: Unsupported -- stays unbound
+            pass
     rep.require(conn is not None, "cannot bind the connection field")
 
     # ---------------------------------------------------------------- R1
